@@ -334,6 +334,37 @@ func FamilyUpdate(thorough bool) []*Conv {
 			Spec:         &Spec{}, ExpectFail: true, FailNote: "field settings on a declared method that the update method's inline struct conversion would bypass",
 		})
 	}
+	// the same struct type on both sides (patch-style update), with and without skipCopySameType
+	for _, skip := range []bool{false, true} {
+		for _, srcPtr := range []bool{false, true} {
+			for _, cats := range []int{0, 7} {
+				n++
+				u := &UpdateSpec{SkipBasic: cats == 7, SkipStruct: cats == 7, SkipNillable: cats == 7}
+				lines := []string{"update target", "ignore Keep"}
+				if cats == 7 {
+					lines = append(lines, "update:ignoreZeroValueField")
+				}
+				var conv []string
+				if skip {
+					conv = []string{"skipCopySameType"}
+				}
+				src := "PFXSame"
+				if srcPtr {
+					src = "*PFXSame"
+				}
+				out = append(out, &Conv{
+					ID:      fmt.Sprintf("update/sametype/skip%v_ptr%v_c%d", skip, srcPtr, cats),
+					Family:  "update",
+					Format:  []string{"struct", "function", "variable"}[n%3],
+					Params:  "source " + src + ", target *PFXSame",
+					Results: []string{"", "error"}[n%2],
+					Decls:   "type PFXSame struct {\n\tID int\n\tName string\n\tL []int\n\tP *int\n\tKeep int\n}\n",
+					ConvLines: conv, MethodLines: lines,
+					Spec: &Spec{SkipCopy: skip, Update: u, Pairs: map[string]*PairSpec{"PFXSame→PFXSame": {Fields: map[string]*FieldSpec{"Keep": {Ignore: true}}}}},
+				})
+			}
+		}
+	}
 	// enum-typed fields belong to the basic category
 	for cats := 0; cats < 8; cats++ {
 		if !thorough && cats != 0 && cats != 1 && cats != 6 && cats != 7 {
@@ -527,6 +558,18 @@ func FamilyDefault(thorough bool) []*Conv {
 				}
 			}
 		}
+	}
+	// *T -> U needs useZeroValueOnPointerInconsistency also when the method has a default constructor
+	for i, fc := range []struct{ name, params, res, decl string }{
+		{"struct", "source *PFXIn", "PFXOut", "type PFXIn struct{ A int }\ntype PFXOut struct{ A int }\nfunc PFXNew() PFXOut { return PFXOut{} }\n"},
+		{"elem", "source []*int", "[]int", "func PFXNew() []int { return nil }\n"},
+		{"field", "source PFXIn", "PFXOut", "type PFXIn struct{ A *int }\ntype PFXOut struct{ A int }\nfunc PFXNew() PFXOut { return PFXOut{} }\n"},
+	} {
+		out = append(out, &Conv{
+			ID: "default/fail_noflag_" + fc.name, Family: "default", Format: []string{"struct", "function", "variable"}[i%3],
+			Params: fc.params, Results: fc.res, Decls: fc.decl, MethodLines: []string{"default PFXNew"},
+			Spec: &Spec{}, ExpectFail: true, FailNote: "*T -> U without useZeroValueOnPointerInconsistency (the method has a default constructor)",
+		})
 	}
 	// the method's struct pair occurs again by value inside itself (the method is built more than once while its
 	// sub-methods are discovered): FUNC still applies on every build
